@@ -26,7 +26,7 @@ cp /verif/known_findings.json $ROOT/verif/
 if [ $? -ne 0 ]; then
   echo "MUTANT $(basename $PATCH) $PROP => build-failed"; grep -E "^error" -A6 $ROOT/build.log | head -20; exit 2
 fi
-VERIF_DIR=$ROOT/verif VERIF_SCALE=$SCALE timeout 900 $ROOT/target/debug/umverif $PROP --tier quick >$ROOT/run.log 2>&1
+VERIF_DIR=$ROOT/verif VERIF_SCALE=$SCALE timeout ${MUT_TIMEOUT:-900} $ROOT/target/debug/umverif $PROP --tier quick >$ROOT/run.log 2>&1
 rc=$?
 case $rc in
   1) echo "MUTANT $(basename $PATCH) $PROP => caught ($(grep '^  sub=' $ROOT/run.log | grep -m1 -o 'signature=[^ ]*'))";;
